@@ -55,7 +55,18 @@ func (ss *segmentStack) decRef() {
 			ss.lowerLevelSnapshot = nil
 		}
 	}
+	releaseChildren := ss.refs == 0
 	ss.m.Unlock()
+
+	if releaseChildren {
+		// Release the ref-count that this stack holds on each of its
+		// child stacks, so that their lower-level snapshots get closed,
+		// too; a child stack stays alive as long as it is in use as a
+		// snapshot of its own (see ChildCollectionSnapshot).
+		for _, childSegStack := range ss.childSegStacks {
+			childSegStack.decRef()
+		}
+	}
 }
 
 // ------------------------------------------------------
